@@ -80,6 +80,10 @@ NoTaint_EpochConvention == "epoch-convention" \notin taint
 NoTaint_EpochGap == "epoch-gap" \notin taint
 NoTaint_HWFallback == "hw-fallback" \notin taint
 NoTaint_ExpandLagging == "expand-lagging" \notin taint
+\* the other direction of the HW fallback (it keeps something the serving leader does not hold) never is the
+\* FIRST thing that goes wrong in the action as specified
+NoTaint_HWFallbackKeptAlone == taint # {"hw-fallback-kept"}
+NoTaint_HWFallbackReported == "hw-fallback-reported" \notin taint
 NoTaint_StaleIsrOffset == "stale-isr-offset" \notin taint
 \* ... and of an actual property violation behind each tag
 Bad == ~C02_CommittedSurvives \/ ~C02_NoDivergence
@@ -87,6 +91,8 @@ NoBad_EpochConvention == ~(taint = {"epoch-convention"} /\ Bad)
 NoBad_EpochGap == ~(taint = {"epoch-gap"} /\ Bad)
 NoBad_HWFallback == ~(taint = {"hw-fallback"} /\ Bad)
 NoBad_ExpandLagging == ~(taint = {"expand-lagging"} /\ Bad)
+\* (the HW of the serving leader passes what an in-sync member holds: the state form of "committed")
+NoBad_HWFallbackReported == ~("hw-fallback-reported" \in taint /\ taint \subseteq {"hw-fallback-reported", "stale-isr-offset"} /\ ~C02_HWBacked)
 NoBad_StaleIsrOffset == ~(taint = {"stale-isr-offset"} /\ Bad)
 
 \* an ALL-policy ack just emitted although some in-sync member lacks the record
